@@ -451,6 +451,19 @@ def gen(tier, rng):
             gen_gcd(E, 'boxed', n, evals(n, 0.33 * b, lo=1))
         if n <= 4 or n in (8, 17, 33) or scale > 1:
             gen_mod2k(E, 'boxed', n, scale)
+    # ---- headroom class: full-width operands that use the top two bits of the precision (the 62-bit unsaturated form
+    #      needs ceil((BITS + 64) / 62) limbs; the widths with BITS = 0 mod 62, i.e. 31 and 62 limbs, have no slack)
+    for n in ([1, 2, 4, 8, 17, 30, 31, 32] if scale == 1 else list(range(1, 34)) + [62]):
+        M = 1 << (64 * n)
+        m = M - 1
+        for (a, mm) in ((m - 1, m), ((M >> 1) + 1, m), (m - 2, m), (M - 3, M - 1 - 2 * (n % 2))):
+            if mm % 2 == 0 or a >= mm: continue
+            rop, mop = BOXED_INV_ROUTES[(n + a) % len(BOXED_INV_ROUTES)]
+            E.add(rop, n, [a, mm], mop=mop, dbg=(n <= 8))
+        E.add('boxed.gcd', n, [(M >> 1) + 1, m], dbg=(n <= 8))
+        if n in UINT_NS:
+            E.add('uint.inv_odd_mod', n, [m - 1, m], dbg=(n <= 8))
+            E.add('uint.gcd', n, [(M >> 1) + 1, m], dbg=(n <= 8))
     gen_constmonty(E, scale)
     return E.cs
 
